@@ -117,8 +117,10 @@ class Runtime:
             return ('none',)
         if isinstance(v, str):
             return ('s', v)
-        if isinstance(v, (int, float)) and not v:
+        if isinstance(v, float) and not v:
             return ('falsy',)
+        if isinstance(v, int) and not isinstance(v, bool):
+            return ('s', str(v))         # int labels of switch nodes (programs.declared_label)
         if isinstance(v, Recurrent):
             return ('recmark', self.to_term(v.data))
         if isinstance(v, BaseException):
@@ -214,7 +216,7 @@ class Runtime:
             if nid in self.runs[run].get('recfalsy', ()):
                 # a falsy payload is still a payload: the start node must receive it
                 self.log(e='BodyEnd', r=run, n=nid, kw=kw, k=k, out=('rec', ('falsy',)), t=self.now_ms(), act=self.act)
-                return Recurrent(data=0)
+                return Recurrent(data=0.0)
             self.log(e='BodyEnd', r=run, n=nid, kw=kw, k=k, out=('rec', data), t=self.now_ms(), act=self.act)
             return Recurrent(data=data)
         if o == 'ok':
@@ -223,10 +225,12 @@ class Runtime:
         elif o == 'none':
             val, ret = ('none',), None
         elif o == 'falsy':
-            val, ret = ('falsy',), 0
+            val, ret = ('falsy',), 0.0       # a falsy value that is not an int label
         elif o.startswith('label:'):
             ret = o.split(':', 1)[1]
             val = ('s', ret)
+            if ret.isdigit():
+                ret = int(ret)          # digit labels are ints (programs.declared_label)
         else:
             raise RuntimeError('bad plan outcome %r' % o)
         self.log(e='BodyEnd', r=run, n=nid, kw=kw, k=k, out=('ok', val), t=self.now_ms(), act=self.act)
